@@ -87,6 +87,7 @@ var checks = map[string]*checkDef{
 		property: "C12", level: "exploration",
 		plan: []planItem{
 			{workload: "C12", variant: "plain", quick: 8000, thorough: 300000},
+			{workload: "C12C", variant: "instrw", quick: 3000, thorough: 150000},
 			{workload: "C12", variant: "purego", quick: 800, thorough: 30000},
 			{workload: "C12", variant: "noavx2", quick: 800, thorough: 30000},
 			{workload: "C12", variant: "force32bit", quick: 480, thorough: 15000},
@@ -101,6 +102,7 @@ var checks = map[string]*checkDef{
 		property: "C15", level: "exploration",
 		plan: []planItem{
 			{workload: "C15", variant: "plain", quick: 4000, thorough: 150000},
+			{workload: "C15C", variant: "instrw", quick: 2000, thorough: 100000},
 			{workload: "C15", variant: "purego", quick: 480, thorough: 15000},
 			{workload: "C15", variant: "noavx2", quick: 480, thorough: 15000},
 			{workload: "C15", variant: "force32bit", quick: 320, thorough: 8000},
